@@ -5,6 +5,7 @@ import (
 	"github.com/versity/versitygw/auth"
 	"github.com/versity/versitygw/internal/zzvf"
 	"github.com/versity/versitygw/internal/zzvfbe"
+	"github.com/versity/versitygw/s3api/middlewares"
 )
 
 // vfAdminIAM records what the admin handlers ask of the account service.
@@ -86,4 +87,90 @@ func VfAdminRoutes() {
 	} else if iam.mutations+iam.lists+mutated+disclosed > 0 {
 		zzvf.Reach("admin-served")
 	}
+}
+
+// VfAdminAuthChain: C02 for the admin API – the middleware chain and routes the real admin server constructor installs
+// (NewAdminServer: URL decoder, header authentication, MD5, admin role gate, admin router) on a recording fiber.App, for
+// every admin route and requests without credentials, with well-formed credentials of an unknown key, of a known non-admin
+// key and of a known admin key; the signature computation is the recording stand-in with an arbitrary verdict. Oracle: an
+// account is created, changed, deleted or listed and a bucket owner changed or listed only after a verification that
+// succeeded for an admin account; everything else is answered with an error.
+func VfAdminAuthChain() {
+	zzvfbe.Routes = nil
+	iam := &vfAdminIAM{}
+	be := &zzvfbe.Recorder{}
+	zzvfbe.Current = be
+	zzvfbe.SigChecks = nil
+	zzvfbe.ResetChecks()
+	root := middlewares.RootUserConfig{Access: "root", Secret: "rootsec"}
+	NewAdminServer(new(fiber.App), be, root, "7071", "us-east-1", vfAdminAccounts{iam}, nil)
+	var admin []zzvfbe.Route
+	for _, rt := range zzvfbe.Routes {
+		if rt.Method == "PATCH" {
+			admin = append(admin, rt)
+		}
+	}
+	zzvf.Assert(len(admin) == 6, "six-admin-routes-registered")
+	if len(admin) == 0 {
+		return
+	}
+	rt := admin[zzvf.Choice("admin_route", len(admin))]
+	zzvf.Trace("route=" + rt.Path)
+	ctx := zzvfbe.NewRequest()
+	r := zzvfbe.R
+	r.Method = "PATCH"
+	r.Path = rt.Path
+	r.Locals["region"] = "us-east-1"
+	const scope = "/20240506/us-east-1/s3/aws4_request"
+	cred := zzvf.Choice("credentials", 4) // 0 none, 1 unknown key, 2 known user, 3 known admin
+	who := []string{"", "nobody", "caller", "adm"}[cred]
+	if cred != 0 {
+		r.SetHeader("Authorization", "AWS4-HMAC-SHA256 Credential="+who+scope+",SignedHeaders=host,Signature=abcd")
+		r.SetHeader("X-Amz-Date", "20240506T070809Z")
+		r.SetHeader("X-Amz-Content-Sha256", "UNSIGNED-PAYLOAD")
+	}
+	r.Body = zzvf.OpaqueBytes("request-body")
+	r.QueryGen = func(key string) (string, bool) {
+		if zzvf.Choice("q."+key, 2) == 0 {
+			return "", false
+		}
+		return "v", true
+	}
+	chain := zzvfbe.ChainFor("PATCH", rt.Path)
+	zzvf.Assert(len(chain) >= 4, "admin-route-is-registered-behind-the-middlewares")
+	_ = zzvfbe.RunChain(ctx, chain)
+	zzvf.Reach("answered")
+	verified := false
+	for _, s := range zzvfbe.SigChecks {
+		if s.Valid {
+			verified = true
+		}
+	}
+	effects := iam.mutations + iam.lists
+	for _, c := range be.Calls {
+		if c.Method == "ChangeBucketOwner" || c.Method == "ListBucketsAndOwners" {
+			effects++
+		}
+	}
+	if effects > 0 {
+		zzvf.Reach("admin-served")
+		zzvf.Assert(verified, "admin-effect-only-after-a-verified-signature")
+		zzvf.Assert(cred == 3, "admin-effect-only-for-an-admin-account")
+	}
+	if cred != 3 || !verified {
+		zzvf.Assert(zzvfbe.W.Status >= 400, "request-without-valid-admin-credentials-is-answered-with-an-error")
+	}
+}
+
+// vfAdminAccounts resolves the access keys used above and forwards the admin calls to the recorder.
+type vfAdminAccounts struct{ *vfAdminIAM }
+
+func (a vfAdminAccounts) GetUserAccount(access string) (auth.Account, error) {
+	switch access {
+	case "caller":
+		return auth.Account{Access: "caller", Secret: "sec", Role: auth.RoleUser}, nil
+	case "adm":
+		return auth.Account{Access: "adm", Secret: "sec2", Role: auth.RoleAdmin}, nil
+	}
+	return a.vfAdminIAM.GetUserAccount(access)
 }
